@@ -24,7 +24,9 @@ constexpr std::pair<IntT, IntT> reduce_fraction(IntT a, IntT b) {
 
 template <typename IntT>
 constexpr IntT log2i(IntT v) {
-  return (sizeof(IntT) << 3) - 1 - __builtin_clz(v);
+  // __builtin_clz takes an unsigned int, so it is only correct for 32-bit types;
+  // __builtin_clzll covers every integer width up to 64 bits
+  return (sizeof(unsigned long long) << 3) - 1 - __builtin_clzll(v);
 }
 
 } // namespace phosg
